@@ -18,17 +18,26 @@ def parseMethod : String → Option Method
   | "pksig1" => some (.pkSig true)
   | "pksig0" => some (.pkSig false)
   | "pwchange" => some .pwChange
-  | "hostsig1" => some (.hostSig true)
-  | "hostsig0" => some (.hostSig false)
   | "kbdint" => some .kbdint
   | "unknown" => some .unknown
   | _ => none
 
+/-- hostbased: `hostsig1` / `hostsig0` present the named host's own key (host c holds key c % 3), `hostsig1k<j>`
+    presents key j (correctly signed) -/
+def parseHostMethod (m : String) (c : Nat) : Option Method :=
+  if m == "hostsig1" then some (.hostSig true (c % 3))
+  else if m == "hostsig0" then some (.hostSig false (c % 3))
+  else if m.startsWith "hostsig1k" then (m.drop 9).toNat?.map (.hostSig true)
+  else none
+
 def parseEv (s : String) : Option Ev :=
   match s.splitOn ":" with
-  | ["req", u, m, c] => match u.toNat?, parseMethod m, c.toNat? with
-    | some u, some m, some c => some (.req ⟨u, m, c⟩)
-    | _, _, _ => none
+  | ["req", u, m, c] => match u.toNat?, c.toNat? with
+    | some u, some c =>
+      match parseMethod m with
+      | some m => some (.req ⟨u, m, c⟩)
+      | none => (parseHostMethod m c).map fun m => .req ⟨u, m, c⟩
+    | _, _ => none
   | ["begin", k] => k.toNat?.map .beginDone
   | ["val", k] => k.toNat?.map .valDone
   | ["other"] => some .other
@@ -68,9 +77,19 @@ def step (_ : Unit) (ws : List String) : Unit × String :=
         let comp := match s.complete with | some u => toString u | none => "-"
         s!"out={String.join (s.out.map showReply)} complete={comp} closed={if s.closed then 1 else 0}"
       | none => "bad-op"
-    | "run2" :: async :: noauth :: pw :: key :: pwexp :: chpw :: chpwexp :: hostkey :: hostuser :: kbd0 :: kbd1 :: evs =>
+    | op :: async :: noauth :: pw :: key :: pwexp :: chpw :: chpwexp :: hostkey :: hostuser :: kbd0 :: kbd1 :: evs =>
+      if !op.startsWith "run2" then "bad-op" else
       match evs.mapM parseEv with
       | some es =>
+        -- run2[o][q<4 bits>]: `o` also prints whose key options are in force, `q` runs the pre-repair code with
+        -- the quirks trustedKeysAccumulate, claimedHostToApp, earlyInfoResponse, staleKeyOptions
+        let rest := op.drop 4
+        let showOpts := rest.startsWith "o"
+        let qbits := (if showOpts then rest.drop 1 else rest).drop 1
+        let qb := fun (i : Nat) => (qbits.drop i).startsWith "1"
+        let q : Quirks := ⟨qb 0, qb 1, qb 2, qb 3⟩
+        let fl := fun (i : Nat) => (async.drop i).startsWith "1"
+        let rhost := ((async.drop 3).take 1).toNat?.getD 0
         let na := pairsOf noauth
         let pws := pairsOf pw
         let ks := pairsOf key
@@ -83,18 +102,20 @@ def step (_ : Unit) (ws : List String) : Unit × String :=
         let k1 := triplesOf kbd1
         let app : App := { needsAuth := fun u => !(na.any (·.1 == u)), beginAsync := async.startsWith "1",
                            pwOK := fun u c => pws.any (· == (u, c)), keyOK := fun u k => ks.any (· == (u, k)),
-                           perUserKeys := async.endsWith "1" && async.length == 2,
+                           perUserKeys := fl 1,
+                           trustClientHost := !((async.drop 2).startsWith "0"), resolvedHost := rhost,
                            pwExpired := fun u c => pe.any (· == (u, c)),
                            chpwOK := fun u c => cp.any (· == (u, c)),
                            chpwExpired := fun u c => cpe.any (· == (u, c)),
-                           hostKeyOK := fun c => hk.any (·.1 == c),
+                           hostKeyOK := fun h k => hk.any (·.1 == h) && k == h % 3,
                            hostUserOK := fun u c => hu.any (· == (u, c)),
                            kbdStart := fun u => match k0.find? (·.1 == u) with | some (_, a) => ansOf a | none => .reject,
                            kbdNext := fun u c => match k1.find? (fun t => t.1 == u && t.2.1 == c) with
                              | some (_, _, a) => ansOf a | none => .reject }
-        let s := run app es
+        let s := if qbits.isEmpty then run app es else runQ q app es
         let comp := match s.complete with | some u => toString u | none => "-"
-        s!"out={String.join (s.out.map showReply)} complete={comp} closed={if s.closed then 1 else 0}"
+        let opts := if showOpts then (match s.keyOpts with | some k => s!" opts={k}" | none => " opts=-") else ""
+        s!"out={String.join (s.out.map showReply)} complete={comp} closed={if s.closed then 1 else 0}{opts}"
       | none => "bad-op"
     | _ => "bad-op"
   ((), r)
